@@ -3750,6 +3750,16 @@ impl QueryJob {
             .map_err(|e| e.to_string())?;
         drop(storage); // Release storage read lock BEFORE DD computation
 
+        // Stratification is a property of the whole rule set in force for this request: the
+        // persistent rules of the snapshot together with the request's session rules (each of
+        // which was only validated on its own). Recursion through negation is rejected here,
+        // exactly as it is when a persistent rule is registered.
+        {
+            let mut rules_in_force: Vec<crate::ast::Rule> = snapshot.rules.as_ref().clone();
+            rules_in_force.extend(session_rules_parsed.iter().cloned());
+            crate::rule_catalog::validate_rules_stratification(&rules_in_force)?;
+        }
+
         let debug_session = std::env::var("IL_DEBUG_SESSION").is_ok();
         if debug_session && !session_fact_tuples.is_empty() {
             debug!(
@@ -3975,6 +3985,9 @@ impl Handler {
         let rule_texts: Vec<String> = self
             .sessions
             .with_session(session_id, |session| session.rule_texts().to_vec())?;
+        let session_rules: Vec<crate::ast::Rule> = self
+            .sessions
+            .with_session(session_id, |session| session.rules().to_vec())?;
 
         // Apply same preprocessing as the fast path: strip comments + transform ?shorthand
         let preprocessed = strip_comments(&program);
@@ -4011,6 +4024,14 @@ impl Handler {
             let snap = storage.get_snapshot_for(&kg).map_err(|e| e.to_string())?;
             (snap, names)
         }; // storage read lock released here
+
+        // The session's rules were validated one by one; together with the persistent rules they
+        // must still be stratifiable (same check as at persistent-rule registration).
+        {
+            let mut rules_in_force: Vec<crate::ast::Rule> = snapshot.rules.as_ref().clone();
+            rules_in_force.extend(session_rules);
+            crate::rule_catalog::validate_rules_stratification(&rules_in_force)?;
+        }
 
         // Acquire semaphore permit to bound concurrent DD computations (same as query_program)
         let permit = Arc::clone(&self.query_semaphore)
